@@ -327,72 +327,12 @@ theorem force_adjoint (c : Par K) (XS XB : Xf K) (VS VB : SV K) (ln l0 l1 : K) (
   to_scalars; ring
 end PointOnPlaneContact
 
-/-! ## mobility-level constraints -/
-namespace ConstantCoordinate
-theorem pverr_is_derivative (pos : K) (x : Q3 K) : (perr (⟨pos, 0⟩ : Jet1 K) ⟨⟨x.q, x.qd⟩, ⟨x.qd, x.qdd⟩, ⟨x.qdd, 0⟩⟩).eps = pverr x := by
-  simp [perr, pverr]
-theorem paerr_is_derivative (x : Q3 K) : (pverr (⟨⟨x.q, x.qd⟩, ⟨x.qd, x.qdd⟩, ⟨x.qdd, 0⟩⟩ : Q3 (Jet1 K))).eps = paerr x := by
-  simp [pverr, paerr]
-theorem force_adjoint (x : Q3 K) (lam : K) : lam * pverr x = qforce lam * x.qd := by simp [pverr, qforce]
-end ConstantCoordinate
-
-namespace ConstantSpeed
-theorem vaerr_is_derivative (speed u udot : K) : (verr (⟨speed, 0⟩ : Jet1 K) ⟨u, udot⟩).eps = vaerr udot := by
-  simp [verr, vaerr]
-theorem force_adjoint (u lam : K) : lam * (verr 0 u) = uforce lam * u := by simp [verr, uforce]
-end ConstantSpeed
-
-namespace ConstantAcceleration
-/-- acceleration-only: the force is the transpose of `∂aerr/∂udot` -/
-theorem force_adjoint (udot lam : K) : lam * (aerr 0 udot) = uforce lam * udot := by simp [aerr, uforce]
-end ConstantAcceleration
-
-namespace PrescribedMotion
-/-- `f fd fdd fddd`: the user function of time and its derivatives (the contract of `Function::calcDerivative`) -/
-theorem pverr_is_derivative (x : Q3 K) (f fd : K) :
-    (perr (⟨⟨x.q, x.qd⟩, ⟨x.qd, x.qdd⟩, ⟨x.qdd, 0⟩⟩ : Q3 (Jet1 K)) ⟨f, fd⟩).eps = pverr x fd := by
-  simp [perr, pverr]
-theorem paerr_is_derivative (x : Q3 K) (fd fdd : K) :
-    (pverr (⟨⟨x.q, x.qd⟩, ⟨x.qd, x.qdd⟩, ⟨x.qdd, 0⟩⟩ : Q3 (Jet1 K)) ⟨fd, fdd⟩).eps = paerr x fdd := by
-  simp [pverr, paerr]
-/-- adjoint for the part of `pverr` that is linear in `qdot` (the bias `−f'(t)` does no virtual work) -/
-theorem force_adjoint (x : Q3 K) (fd lam : K) : lam * (pverr x fd - pverr ⟨x.q, 0, x.qdd⟩ fd) = qforce lam * x.qd := by
-  simp [pverr, qforce]
-end PrescribedMotion
-
-/-! ### couplers, relative to the user Function's derivatives -/
-
-theorem dotL_jet (g gd x xd : List K) (hl : g.length = gd.length) (hx : x.length = xd.length)
-    (hgx : g.length = x.length) :
-    (dotL (List.zipWith (fun a b => (⟨a, b⟩ : Jet1 K)) g gd) (List.zipWith (fun a b => (⟨a, b⟩ : Jet1 K)) x xd)).eps
-      = dotL g xd + dotL gd x := by
-  induction g generalizing gd x xd with
-  | nil =>
-    cases gd with
-    | nil => simp [dotL]
-    | cons b bs => simp at hl
-  | cons a as ih =>
-    cases gd with
-    | nil => simp at hl
-    | cons b bs =>
-      cases x with
-      | nil => simp at hgx
-      | cons y ys =>
-        cases xd with
-        | nil => simp at hx
-        | cons z zs =>
-          simp only [List.zipWith_cons_cons, dotL, Jet1.add_eps, Jet1.mul_eps]
-          rw [ih bs ys zs (by simpa using hl) (by simpa using hx) (by simpa using hgx)]
-          ring
-
+/-! ## couplers, relative to the user Function's derivatives (the definitional restatements for ConstantCoordinate,
+ConstantSpeed, ConstantAcceleration, PrescribedMotion are in `C07_lemmas.lean` and are not counted as obligations) -/
 namespace CoordinateCoupler
-/-- If the user's gradient `g` is the derivative of the user's value along every motion (`hf`, the contract of
-`Function::calcDerivative` with one component), then `pverr` is the derivative of `perr`. -/
-theorem pverr_is_derivative (fJ : Jet1 K) (g qd : List K) (hf : fJ.eps = dotL g qd) :
-    (perr fJ).eps = pverr g qd := by simp [perr, pverr, hf]
-
-/-- If moreover the Hessian `H` is the derivative of the gradient (`gd_i = Σ_j H_ij q̇_j`, packaged as
-`dotL gd qd = quadL H qd qd`), then `paerr` is the derivative of `pverr` -/
+/-- If the Hessian `H` the user Function returns is the derivative of its gradient `g` (`gd_i = Σ_j H_ij q̇_j`, packaged as
+`dotL gd qd = quadL H qd qd`), then `paerr` is the time derivative of `pverr` (the first level, `pverr = d/dt perr`, is
+literally the chain-rule contract of `Function::calcDerivative` and is not restated as a theorem) -/
 theorem paerr_is_derivative (g gd qd qdd : List K) (H : List (List K))
     (hl : g.length = gd.length) (hx : qd.length = qdd.length) (hgx : g.length = qd.length)
     (hH : dotL gd qd = quadL H qd qd) :
@@ -401,33 +341,169 @@ theorem paerr_is_derivative (g gd qd qdd : List K) (H : List (List K))
   simp only [pverr, paerr]
   rw [dotL_jet g gd qd qdd hl hx hgx, hH]; ring
 
-theorem dotL_smul (lam : K) (g x : List K) : dotL (g.map (fun gi => lam * gi)) x = lam * dotL g x := by
-  induction g generalizing x with
-  | nil => simp [dotL]
-  | cons a as ih => cases x with
-    | nil => simp [dotL]
-    | cons y ys => simp only [List.map_cons, dotL, ih]; ring
-
 theorem force_adjoint (g qd : List K) (lam : K) : lam * pverr g qd = dotL (qforces g lam) qd := by
   simp only [pverr, qforces, dotL_smul]
 end CoordinateCoupler
 
 namespace SpeedCoupler
-theorem vaerr_is_derivative (fJ : Jet1 K) (g xd : List K) (hf : fJ.eps = dotL g xd) :
-    (verr fJ).eps = vaerr g xd := by simp [verr, vaerr, hf]
+/-- the mobility forces `(∂f/∂u_i) λ` on the speed arguments are the transpose of the `udot`-linear part of `vaerr` -/
+theorem force_adjoint (ns : Nat) (g ud : List K) (lam : K) :
+    lam * dotL (g.take ns) ud = dotL (uforces ns g lam) ud := by
+  simp only [uforces]
+  have h : ∀ (l x : List K), dotL (l.map (fun gi => gi * lam)) x = lam * dotL l x := by
+    intro l; induction l with
+    | nil => intro x; simp [dotL]
+    | cons a t ih => intro x; cases x with
+      | nil => simp [dotL]
+      | cons y ys => simp only [List.map_cons, dotL, ih]; ring
+  rw [h]
 end SpeedCoupler
 
-/-! ## how the per-constraint adjoints assemble into `G` and `~G`
+/-! ## from the ancestor frame to Ground: forces on the constrained bodies only
 
-`multiplyByPVA` evaluates `err(J u)` (minus its bias) and `multiplyByPVATranspose` evaluates `~J F(λ) + f(λ)`.
-Given the per-constraint adjoint (`force_adjoint` above) and the adjointness of the system Jacobian operators
-(property C04), the two operators are transposes of each other. -/
-omit [CommRing K] in
-theorem GT_adjoint_of_parts {Lam E F V U Fu : Type} (pairE : Lam → E → K) (pairV : F → V → K) (pairU : Fu → U → K)
-    (errLin : V → E) (forces : Lam → F) (J : U → V) (Jt : F → Fu)
-    (hc : ∀ l v, pairE l (errLin v) = pairV (forces l) v) (hJ : ∀ f u, pairV f (J u) = pairU (Jt f) u) :
-    ∀ l u, pairE l (errLin (J u)) = pairU (Jt (forces l)) u := by
-  intro l u; rw [hc, hJ]
+`multiplyByPVATranspose` re-expresses each constraint's body forces in Ground (`R_GA * F_B`) and applies them to the
+constrained bodies — nothing to the ancestor, although the velocity errors are functions of the ancestor-relative
+velocities `relVel(V_GA, V_GB)`.  That this is still the transpose rests on every constraint's forces being balanced
+(zero net wrench), proved per type below (`T.forces_balance`), and on `relVel_adjoint`. -/
+/-- re-express a spatial force given in the ancestor frame `A` in Ground: `R_GA * F` -/
+def rotSV (R : M33 K) (F : SV K) : SV K := ⟨R.mulVec F.w, R.mulVec F.v⟩
+
+/-- the wrench of `F` (acting at the origin of `B`) about the ancestor's origin, expressed in Ground -/
+def wrenchAboutA (XA XB : Xf K) (F : SV K) : SV K :=
+  ⟨(XA.R.mulVec F.w).add ((XB.p.sub XA.p).cross (XA.R.mulVec F.v)), XA.R.mulVec F.v⟩
+
+/-- transpose of `findRelativeVelocity`: pairing a force with the ancestor-relative velocity equals pairing the
+re-expressed force with the body's Ground velocity minus pairing its wrench about `Ao` with the ancestor's velocity -/
+theorem relVel_adjoint (XA XB : Xf K) (VA VB F : SV K) :
+    SV.dot F (relVel XA VA XB VB) = SV.dot (rotSV XA.R F) VB - SV.dot (wrenchAboutA XA XB F) VA := by
+  simp only [relVel, rotSV, wrenchAboutA]; to_scalars; ring
+
+/-- rows of `R` right-handed -/
+structure IsRightHandedRows (R : M33 K) : Prop where
+  h0 : R.r1.cross R.r2 = R.r0
+  h1 : R.r2.cross R.r0 = R.r1
+  h2 : R.r0.cross R.r1 = R.r2
+
+/-- balance of two spatial forces (acting at the origins `p1`, `p2`, everything in the ancestor frame):
+zero net force and zero net moment about the ancestor origin -/
+def Balanced2 (p1 p2 : V3 K) (F1 F2 : SV K) : Prop :=
+  F1.v.add F2.v = V3.zero ∧ ((F1.w.add (p1.cross F1.v)).add (F2.w.add (p2.cross F2.v))) = V3.zero
+
+theorem mulVec_cross {R : M33 K} (h : IsRightHandedRows R) (a b : V3 K) :
+    R.mulVec (a.cross b) = (R.mulVec a).cross (R.mulVec b) := by
+  obtain ⟨h0, h1, h2⟩ := h
+  obtain ⟨⟨r00, r01, r02⟩, ⟨r10, r11, r12⟩, ⟨r20, r21, r22⟩⟩ := R
+  obtain ⟨a0, a1, a2⟩ := a; obtain ⟨b0, b1, b2⟩ := b
+  simp only [V3.cross, V3.mk.injEq] at h0 h1 h2
+  obtain ⟨h00, h01, h02⟩ := h0; obtain ⟨h10, h11, h12⟩ := h1; obtain ⟨h20, h21, h22⟩ := h2
+  simp only [M33.mulVec, V3.dot, V3.cross, V3.mk.injEq]
+  refine ⟨?_, ?_, ?_⟩
+  · linear_combination (-(a1 * b2 - a2 * b1)) * h00 + (-(a2 * b0 - a0 * b2)) * h01 + (-(a0 * b1 - a1 * b0)) * h02
+  · linear_combination (-(a1 * b2 - a2 * b1)) * h10 + (-(a2 * b0 - a0 * b2)) * h11 + (-(a0 * b1 - a1 * b0)) * h12
+  · linear_combination (-(a1 * b2 - a2 * b1)) * h20 + (-(a2 * b0 - a0 * b2)) * h21 + (-(a0 * b1 - a1 * b0)) * h22
+
+theorem mulVec_add (R : M33 K) (a b : V3 K) : R.mulVec (a.add b) = (R.mulVec a).add (R.mulVec b) := by
+  simp only [M33.mulVec, V3.dot, V3.add, V3.mk.injEq]; refine ⟨?_, ?_, ?_⟩ <;> ring
+theorem mulVec_zero (R : M33 K) : R.mulVec V3.zero = V3.zero := by
+  simp only [M33.mulVec, V3.dot, V3.zero, V3.mk.injEq]; refine ⟨?_, ?_, ?_⟩ <;> ring
+
+/-- a balanced pair of constraint forces does no work through the ancestor's own motion -/
+theorem wrench_cancels (XA X1 X2 : Xf K) (VA F1 F2 : SV K) (hO : IsOrtho XA.R) (hR : IsRightHandedRows XA.R)
+    (hb : Balanced2 (relPose XA X1).p (relPose XA X2).p F1 F2) :
+    SV.dot (wrenchAboutA XA X1 F1) VA + SV.dot (wrenchAboutA XA X2 F2) VA = 0 := by
+  obtain ⟨hf, hm⟩ := hb
+  have hW2 := congrArg XA.R.mulVec hf
+  have hW1 := congrArg XA.R.mulVec hm
+  simp only [relPose, mulVec_add, mulVec_cross hR, mulVec_tmulVec hO, mulVec_zero] at hW1 hW2
+  have e1 := congrArg (fun v => V3.dot v VA.w) hW1
+  have e2 := congrArg (fun v => V3.dot v VA.v) hW2
+  simp only [wrenchAboutA, SV.dot, V3.dot, V3.add, V3.zero] at e1 e2 ⊢
+  linear_combination e1 + e2
+
+/-- **Ground-frame adjoint for a two-body constraint with any ancestor**: if the constraint's forces (in `A`) are the
+transpose of its velocity error w.r.t. the ancestor-relative velocities and are balanced, then the forces re-expressed
+in Ground and applied to the two constrained bodies ONLY (nothing on the ancestor) are the transpose of the velocity
+error as a function of the bodies' Ground velocities -/
+theorem ground_adjoint_two (XA X1 X2 : Xf K) (VA V1 V2 F1 F2 : SV K) (hO : IsOrtho XA.R) (hR : IsRightHandedRows XA.R)
+    (hb : Balanced2 (relPose XA X1).p (relPose XA X2).p F1 F2) :
+    SV.dot F1 (relVel XA VA X1 V1) + SV.dot F2 (relVel XA VA X2 V2)
+      = SV.dot (rotSV XA.R F1) V1 + SV.dot (rotSV XA.R F2) V2 := by
+  rw [relVel_adjoint, relVel_adjoint]
+  linear_combination (-1 : K) * wrench_cancels XA X1 X2 VA F1 F2 hO hR hb
+
+/-! ### per-type balance of the constraint forces (about the ancestor origin, in `A`) and the Ground-frame adjoint -/
+namespace PointInPlane
+theorem forces_balance (c : Par K) (XB XF : Xf K) (lam : K) (hB : IsOrtho XB.R) :
+    Balanced2 XB.p XF.p (forces c XB XF lam).1 (forces c XB XF lam).2 := by
+  simp only [Balanced2, forces, stationForce, stationForceA, invXf, mulVec_tmulVec hB]
+  to_scalars; refine ⟨⟨?_, ?_, ?_⟩, ⟨?_, ?_, ?_⟩⟩ <;> ring
+
+/-- virtual work in Ground for any ancestor: `λ·pverr` (evaluated, as the code does, on the ancestor-relative kinematics) equals
+the power of the re-expressed forces on the two constrained bodies against their Ground velocities -/
+theorem ground_adjoint (c : Par K) (A B F : Kin K) (lam : K) (hA : IsOrtho A.X.R) (hR : IsRightHandedRows A.X.R)
+    (hB : IsOrtho (relPose A.X B.X).R) :
+    lam * pverr c (toAncestor A B).X (toAncestor A F).X (toAncestor A B).V (toAncestor A F).V
+      = SV.dot (rotSV A.X.R (forces c (toAncestor A B).X (toAncestor A F).X lam).1) B.V
+        + SV.dot (rotSV A.X.R (forces c (toAncestor A B).X (toAncestor A F).X lam).2) F.V := by
+  rw [force_adjoint c _ _ _ _ lam hB]
+  exact ground_adjoint_two A.X B.X F.X A.V B.V F.V _ _ hA hR (forces_balance c _ _ lam hB)
+end PointInPlane
+
+namespace PointOnLine
+theorem forces_balance (c : Par K) (XB XF : Xf K) (l0 l1 : K) (hB : IsOrtho XB.R) :
+    Balanced2 XB.p XF.p (forces c XB XF l0 l1).1 (forces c XB XF l0 l1).2 := by
+  simp only [Balanced2, forces, stationForce, stationForceA, invXf, mulVec_tmulVec hB]
+  to_scalars; refine ⟨⟨?_, ?_, ?_⟩, ⟨?_, ?_, ?_⟩⟩ <;> ring
+end PointOnLine
+
+namespace ConstantAngle
+theorem forces_balance (c : Par K) (XB XF : Xf K) (lam : K) :
+    Balanced2 XB.p XF.p (forces c XB XF lam).1 (forces c XB XF lam).2 := by
+  simp only [Balanced2, forces]; to_scalars; refine ⟨⟨?_, ?_, ?_⟩, ⟨?_, ?_, ?_⟩⟩ <;> ring
+end ConstantAngle
+
+namespace ConstantOrientation
+theorem forces_balance (c : Par K) (XB XF : Xf K) (lam : V3 K) :
+    Balanced2 XB.p XF.p (forces c XB XF lam).1 (forces c XB XF lam).2 := by
+  simp only [Balanced2, forces, Orient.torqueF]; to_scalars; refine ⟨⟨?_, ?_, ?_⟩, ⟨?_, ?_, ?_⟩⟩ <;> ring
+end ConstantOrientation
+
+namespace Ball
+theorem forces_balance (c : Par K) (X1 X2 : Xf K) (lam : V3 K) (h1 : IsOrtho X1.R) :
+    Balanced2 X1.p X2.p (forces c X1 X2 lam).1 (forces c X1 X2 lam).2 := by
+  simp only [Balanced2, forces, stationForce, stationForceA, invXf, mulVec_tmulVec h1]
+  to_scalars; refine ⟨⟨?_, ?_, ?_⟩, ⟨?_, ?_, ?_⟩⟩ <;> ring
+
+theorem ground_adjoint (c : Par K) (A B1 B2 : Kin K) (lam : V3 K) (hA : IsOrtho A.X.R) (hR : IsRightHandedRows A.X.R)
+    (h1 : IsOrtho (relPose A.X B1.X).R) :
+    V3.dot lam (pverr c (toAncestor A B1).X (toAncestor A B2).X (toAncestor A B1).V (toAncestor A B2).V)
+      = SV.dot (rotSV A.X.R (forces c (toAncestor A B1).X (toAncestor A B2).X lam).1) B1.V
+        + SV.dot (rotSV A.X.R (forces c (toAncestor A B1).X (toAncestor A B2).X lam).2) B2.V := by
+  rw [force_adjoint c _ _ _ _ lam h1]
+  exact ground_adjoint_two A.X B1.X B2.X A.V B1.V B2.V _ _ hA hR (forces_balance c _ _ lam h1)
+end Ball
+
+namespace Weld
+theorem forces_balance (c : Par K) (XB XF : Xf K) (lt lf : V3 K) (hB : IsOrtho XB.R) :
+    Balanced2 XB.p XF.p (forces c XB XF lt lf).1 (forces c XB XF lt lf).2 := by
+  simp only [Balanced2, forces, Orient.torqueF, stationForce, stationForceA, invXf, mulVec_tmulVec hB]
+  to_scalars; refine ⟨⟨?_, ?_, ?_⟩, ⟨?_, ?_, ?_⟩⟩ <;> ring
+end Weld
+
+namespace NoSlip1D
+/-- the case body receives nothing; the two moving bodies receive a balanced pair -/
+theorem forces_balance (c : Par K) (XC X0 X1 : Xf K) (lam : K) (h0 : IsOrtho X0.R) (h1 : IsOrtho X1.R) :
+    (forces c XC X0 X1 lam).1 = SV.zero ∧
+    Balanced2 X0.p X1.p (forces c XC X0 X1 lam).2.1 (forces c XC X0 X1 lam).2.2 := by
+  simp only [Balanced2, forces, stationForce, stationForceA, invXf, mulVec_tmulVec h0, mulVec_tmulVec h1]
+  to_scalars; refine ⟨trivial, ⟨?_, ?_, ?_⟩, ⟨?_, ?_, ?_⟩⟩ <;> ring
+end NoSlip1D
+
+namespace PointOnPlaneContact
+theorem forces_balance (c : Par K) (XS XB : Xf K) (ln l0 l1 : K) :
+    Balanced2 XS.p XB.p (forces c XS XB ln l0 l1).1 (forces c XS XB ln l0 l1).2 := by
+  simp only [Balanced2, forces]; to_scalars; refine ⟨⟨?_, ?_, ?_⟩, ⟨?_, ?_, ?_⟩⟩ <;> ring
+end PointOnPlaneContact
 
 /-! ## Ground → Ancestor conversion (`findRelativeVelocity`, `findRelativeAcceleration`) -/
 
@@ -556,6 +632,12 @@ theorem paerr_is_derivative (s : K → K) (c : Par K) (XF XB : Xf K) (VF VB AF A
   generalize s (p0 * p0 + p1 * p1 + p2 * p2) = r at hs hne ⊢
   field_simp
   ring
+/-- the two Rod forces are equal and opposite along the line through the stations: balanced -/
+theorem forces_balance (s inv : K → K) (c : Par K) (XF XB : Xf K) (lam : K) :
+    Balanced2 XF.p XB.p (forces s inv c XF XB lam).1 (forces s inv c XF XB lam).2 := by
+  simp only [Balanced2, forces, Cz, pvec]
+  generalize inv (s _) = oor
+  to_scalars; refine ⟨⟨?_, ?_, ?_⟩, ⟨?_, ?_, ?_⟩⟩ <;> ring
 end Rod
 end field
 
